@@ -68,8 +68,23 @@ fi
 W=$WQ; [ "$TIER" = thorough ] && W=$WT
 rm -f "$EVD/$ID.json"
 cd "$ROOT/harness/props/$PKG"
-GORACE="halt_on_error=0" timeout -s QUIT -k 20 $W "$EXE" -test.run "^Test${ID}\$" -test.count=1 -test.timeout=0 >"$LOG" 2>&1
-RC=$?
+# A signal-level crash (SIGSEGV / SIGBUS) whose crashing goroutine has no rueidis frame is a crash of the Go runtime or of
+# the harness (seen once: runtime.(*timer).modify under time.AfterFunc inside a synctest bubble), not an observation of
+# rueidis: the run is repeated, at most twice. A crash with a rueidis frame on the crashing goroutine is a violation (below).
+ATTEMPT=0
+while :; do
+  rm -f "$EVD/$ID.json"
+  GORACE="halt_on_error=0" timeout -s QUIT -k 20 $W "$EXE" -test.run "^Test${ID}\$" -test.count=1 -test.timeout=0 >"$LOG" 2>&1
+  RC=$?
+  if [ $RC -ne 0 ] && [ $ATTEMPT -lt 2 ] && head -n 3 "$LOG" | grep -qE '^(SIGSEGV|SIGBUS)' \
+     && ! awk '/^goroutine [0-9]+ .*\[running/{f=1} f&&/^$/{exit} f' "$LOG" | grep -q 'github.com/redis/rueidis'; then
+    ATTEMPT=$((ATTEMPT+1))
+    cp "$LOG" "$LOG.runtime-crash-$ATTEMPT"
+    echo "NOTE property=$ID Go runtime / harness crash outside rueidis (kept as $LOG.runtime-crash-$ATTEMPT), running again"
+    continue
+  fi
+  break
+done
 cd "$ROOT"
 
 grep -E '^(VIOLATION |KNOWN-FINDING|SUMMARY|BROKEN|INCONCLUSIVE|  class=)' "$LOG" | head -n 300
@@ -94,7 +109,10 @@ if grep -q 'WARNING: DATA RACE' "$LOG" && ! grep -qE '^(panic:|fatal error:)' "$
   fi
 fi
 # the process died or a sanitizer spoke outside an oracle: a crash of the code under test is a violation, with the log as witness
-if grep -qE '^(panic:|fatal error:|WARNING: DATA RACE)|testing: race detected|^unexpected fault address|checkptr' "$LOG"; then
+if head -n 3 "$LOG" | grep -qE '^(SIGSEGV|SIGBUS)' && ! awk '/^goroutine [0-9]+ .*\[running/{f=1} f&&/^$/{exit} f' "$LOG" | grep -q 'github.com/redis/rueidis'; then
+  echo "BROKEN property=$ID the Go runtime / harness crashed outside rueidis in three runs in a row (log $LOG)"; exit 2
+fi
+if grep -qE '^(panic:|fatal error:|WARNING: DATA RACE|SIGSEGV|SIGBUS)|testing: race detected|^unexpected fault address|checkptr' "$LOG"; then
   if grep -qE 'BROKEN ' "$LOG" && ! grep -q 'WARNING: DATA RACE' "$LOG"; then tail -n 40 "$LOG"; exit 2; fi
   REP=$ROOT/replays/$ID-$TIER-seed$VERIF_SEED-crash.log
   cp "$LOG" "$REP"
